@@ -30,8 +30,119 @@ def configs(tier):
     return out
 
 
+def _overlap_job(args):
+    """E5: one write handled at every suspension point of a sync-collection report (single-process server).
+
+    The client applies the report to its replica, keeps the returned token and later syncs again from it:
+    the replica must then equal the collection - whatever the returned token stands for, nothing may fall between
+    the change list and the token.
+    """
+    import os
+    import posixpath
+    import shutil
+    import urllib.parse
+
+    from ..core import asyncpoints, bodies as B, dav, davsys, env, http
+
+    held, wname = args
+    vios = {}
+    stats = {"cases": 0, "points": 0}
+    base = davsys.COLL_PATHS["cal"]
+    writes = {
+        "put-new": ("PUT", base + "c.ics", {"Content-Type": B.CT_ICS}, B.ALL_BODIES["T"]),
+        "put-replace": ("PUT", base + "a.ics", {"Content-Type": B.CT_ICS}, B.ALL_BODIES["X2"]),
+        "delete": ("DELETE", base + "b.ics", {}, b""),
+    }
+    props = [dav.P_GETETAG, "{DAV:}getcontentlength"]
+
+    def sync(app, token, inject_at=None, other=None):
+        (code, hd, body), oresp, n, labels = asyncpoints.run(app, ("REPORT", base, dict(dav.XML_CT, Depth="1"), dav.sync_body(token, props)), inject_at, other)
+        if code != 207:
+            return None, None, n, oresp
+        ms = dav.parse_multistatus(body)
+        ch = {}
+        for x in ms.responses:
+            nm = urllib.parse.unquote(posixpath.basename(x.href or ""))
+            ch[nm] = None if x.status == 404 else x.prop_text(dav.P_GETETAG)
+        return ch, ms.sync_token, n, oresp
+
+    def listing(app):
+        (code, hd, body), _, _, _ = asyncpoints.run(app, ("PROPFIND", base, dict(dav.XML_CT, Depth="1"), dav.propfind_body([dav.P_GETETAG])))
+        ms = dav.parse_multistatus(body)
+        return {urllib.parse.unquote(posixpath.basename(x.href)): x.prop_text(dav.P_GETETAG) for x in ms.responses if x.href and not x.href.endswith("/")}
+
+    def apply(replica, ch):
+        r = dict(replica)
+        for n, e in ch.items():
+            if e is None:
+                r.pop(n, None)
+            else:
+                r[n] = e
+        return r
+
+    k = 0
+    while True:
+        root = env.fresh_dir("ov")
+        os.rmdir(root)
+        shutil.copytree(davsys.template_root("tree"), root, symlinks=True)
+        w = http.WsgiWorld(root)
+        try:
+            app = w.app
+            for (m, t, h, b) in (("PUT", base + "a.ics", {"Content-Type": B.CT_ICS}, B.ALL_BODIES["X"]), ("PUT", base + "b.ics", {"Content-Type": B.CT_ICS}, B.ALL_BODIES["Z"])):
+                asyncpoints.run(app, (m, t, h, b))
+            replica, token = {}, ""
+            if held == "after-first-sync":
+                ch, token, _, _ = sync(app, "")
+                replica = apply({}, ch)
+                asyncpoints.run(app, ("PUT", base + "d.ics", {"Content-Type": B.CT_ICS}, B.ics("uid-d", "d")))
+            ch, tok1, n, oresp = sync(app, token, inject_at=k, other=writes[wname])
+            stats["points"] = n
+            if k >= n:
+                break
+            stats["cases"] += 1
+            if ch is None:
+                vios.setdefault("C07|overlap|report-fails:%s" % wname, {"summary": "sync-collection failed while a %s was handled at suspension point %d" % (wname, k), "witness": {"held": held, "write": wname, "point": k}, "count": 0})["count"] += 1
+            else:
+                replica1 = apply(replica, ch)
+                ch2, tok2, _, _ = sync(app, tok1)
+                truth = listing(app)
+                replica2 = apply(replica1, ch2 or {})
+                if ch2 is None or replica2 != truth:
+                    missing = sorted(set(truth) - set(replica2))
+                    stale = sorted(n_ for n_ in replica2 if replica2.get(n_) != truth.get(n_))
+                    sig = "C07|overlap|replica-diverges:%s:%s" % (wname, "missing-member" if missing else "stale-member")
+                    vios.setdefault(sig, {"summary": "a %s handled while the report was being built (suspension point %d of %d) is covered by the returned token but not by the change list: after the next sync the replica has %s, the collection %s" % (wname, k, n, sorted(replica2), sorted(truth)),
+                                          "witness": {"held": held, "write": wname, "point": k, "write_status": oresp[0] if oresp else None}, "count": 0})["count"] += 1
+        finally:
+            w.close()
+            shutil.rmtree(root, ignore_errors=True)
+        k += 1
+        if k > 40:
+            break
+    return vios, stats
+
+
+def overlap_phase(rep, workers=None):
+    import multiprocessing as mp
+
+    jobs = [(held, wn) for held in ("empty-token", "after-first-sync") for wn in ("put-new", "put-replace", "delete")]
+    with mp.get_context("fork").Pool(min(len(jobs), workers or 16)) as pool:
+        results = pool.map(_overlap_job, jobs, chunksize=1)
+    cases = 0
+    pts = 0
+    for vios, stats in results:
+        rep.merge(vios)
+        cases += stats["cases"]
+        pts = max(pts, stats["points"])
+    if cases == 0:
+        rep.harness_error("overlap phase: the report has no suspension point at all (nothing was explored)")
+    return {"overlap_phase": {"placements_of_a_write_inside_a_report": cases, "suspension_points_per_report": pts, "writes": ["put-new", "put-replace", "delete"]}}
+
+
 def run(tier, workers=None):
     def depth_of(cfg):
         return (3, None) if tier == "quick" else (6, 2500)
 
-    return e1common.run_configs("C07", tier, configs(tier), depth_of, workers=workers, assumptions=ASSUME)
+    return e1common.run_configs("C07", tier, configs(tier), depth_of, workers=workers, extra=lambda rep: overlap_phase(rep, workers), assumptions=ASSUME + [
+        "overlap phase (E5): one write (create, replace, delete) handled to completion at every suspension point of a sync-collection report in the single-process server; replica = old replica + report + next sync must equal the collection",
+    ])
